@@ -133,6 +133,15 @@ class Engine:
         self._trim()
         t0 = _time.time()
         r = self.solver.check(*assumptions)
+        if r == z3.unknown and 'canceled' in self.solver.reason_unknown() or r == z3.unknown and 'timeout' in self.solver.reason_unknown():
+            # the time limit is wall-clock: on a loaded machine a query that normally takes seconds may hit it - one retry with a
+            # six-fold limit before the answer counts as unknown
+            self.solver.set('timeout', self.check_timeout_ms * 6)
+            try:
+                r = self.solver.check(*assumptions)
+            finally:
+                self.solver.set('timeout', self.check_timeout_ms)
+            self.stats['retries'] = self.stats.get('retries', 0) + 1
         self.stats['solver_time'] += _time.time() - t0
         self.stats['solver_checks'] += 1
         if r == z3.unknown:
